@@ -4,7 +4,7 @@ open Cppcheck.Wire Cppcheck.Unmatched
 
 /-
 Stateful line protocol (the state is the suppression list; `new` resets it).  A suppression travels as
-  <hex id>:<hex file>:<line>:<hex symbol>:<hash>:<thisAndNextLine>:<type 0..5>:<lineBegin>:<lineEnd>:<column>:<inline>:<polyspace>:<checked>:<matched>
+  <hex id>:<hex file>:<line>:<hex symbol>:<hash>:<thisAndNextLine>:<type 0..5>:<lineBegin>:<lineEnd>:<column>:<inline>:<polyspace>:<checked>:<matched>:<hex macroName>
 ops (parameters = answers of the real code, see harness/c24.cpp):
   new
   add <globsOk> <suppr>                      -> <ok|exists|noid|invalidid|invalidglob> | <state>
@@ -32,19 +32,19 @@ def parseInt (s : String) : Option Int :=
 
 def parseSuppr (t : String) : Option Suppr :=
   match t.splitOn ":" with
-  | [id, file, line, sym, hash, tanl, ty, lb, le, col, inl, poly, chk, mat] =>
-    match fromHex id, fromHex file, parseInt line, fromHex sym, hash.toNat?, ty.toNat?, parseInt lb, parseInt le, col.toNat? with
-    | some id, some file, some line, some sym, some hash, some ty, some lb, some le, some col =>
-      some { errorId := id, fileName := file, lineNumber := line, symbolName := sym, hash := hash, thisAndNextLine := tanl == "1",
+  | [id, file, line, sym, hash, tanl, ty, lb, le, col, inl, poly, chk, mat, mac] =>
+    match fromHex id, fromHex file, parseInt line, fromHex sym, hash.toNat?, ty.toNat?, parseInt lb, parseInt le, col.toNat?, fromHex mac with
+    | some id, some file, some line, some sym, some hash, some ty, some lb, some le, some col, some mac =>
+      some { errorId := id, fileName := file, lineNumber := line, symbolName := sym, macroName := mac, hash := hash, thisAndNextLine := tanl == "1",
              type := typeOfNat ty, lineBegin := lb, lineEnd := le, column := col, isInline := inl == "1", isPolyspace := poly == "1",
              checked := chk == "1", matched := mat == "1" }
-    | _, _, _, _, _, _, _, _, _ => none
+    | _, _, _, _, _, _, _, _, _, _ => none
   | _ => none
 
 def supprStr (s : Suppr) : String :=
   ":".intercalate [toHex s.errorId, toHex s.fileName, toString s.lineNumber, toHex s.symbolName, toString s.hash, boolStr s.thisAndNextLine,
     toString (natOfType s.type), toString s.lineBegin, toString s.lineEnd, toString s.column, boolStr s.isInline, boolStr s.isPolyspace,
-    boolStr s.checked, boolStr s.matched]
+    boolStr s.checked, boolStr s.matched, toHex s.macroName]
 
 def listStr (l : List Suppr) : String := if l.isEmpty then "-" else " ".intercalate (l.map supprStr)
 
